@@ -3,7 +3,9 @@
 // A scenario describes one overload family, one argument tuple and any number of registration orders:
 //
 //     fam <name>
-//     c <label> <param>;<param> -> <output pattern>          (one line per candidate; "-" = no parameters)
+//     c <label> <param>;<param> -> <output pattern>          (one line per candidate; "-" = no parameters;
+//                                                             a leading '*' on the LAST parameter makes the candidate
+//                                                             variadic: OperatorImpl::variadic, that pattern is the tail)
 //     args <type>;<type>
 //     order <label>,<label>,...                              (one line per registration order)
 //     run
@@ -14,6 +16,7 @@
 //     pattern leaves    $S scalar variable   ~T whole-time-series variable   #N size variable (TSL size position)
 //                       !<type> concrete interned leaf (TypePattern::concrete); in a TSL pattern size 0 = unconstrained
 //     a top-level scalar type / $S is a *scalar parameter* (ParamPattern::Kind::Scalar) resp. a scalar argument value.
+// The argument tuple may be longer than a candidate's parameter list (the overflow is the tail of a variadic candidate).
 //
 // For every scenario the driver emits
 //     {"e":"solo","c":[{"l":label,"base":operator_rank,"prank":sum of ts_pattern_rank/scalar_pattern_rank,
@@ -23,7 +26,8 @@
 //      "bind":[[var,type]...],"out":type,"err":text}                                      one per order
 //     {"e":"done"}
 // Patterns are built at run time with the tree's TypePattern / ScalarPattern / ParamPattern, ranked with the tree's
-// operator_dispatch_detail::operator_rank, registered in the given order under a fresh operator name after
+// operator_dispatch_detail::operator_rank (for a variadic candidate without the tail pattern, as build_graph_overload
+// does), registered in the given order under a fresh operator name after
 // OperatorRegistry::reset(), and resolved with OperatorRegistry::resolve (a Wiring carrying a WiringObserver supplies
 // the WiringResolutionEvent).
 #include "common.h"
@@ -303,6 +307,7 @@ namespace
         std::string               label;
         std::vector<ParamPattern> params;
         TypePattern               output;
+        bool                      variadic{false};  // the last parameter is the tail pattern
         int                       base{0};   // the tree's operator_rank(params)
         int                       prank{0};  // sum of the tree's ts_pattern_rank / scalar_pattern_rank over the parameters
     };
@@ -356,9 +361,10 @@ namespace
             impl.name       = opname;
             impl.label      = it->label;
             impl.params     = it->params;
+            impl.variadic   = it->variadic;
             impl.has_output = true;
             impl.output     = it->output;
-            impl.rank       = operator_dispatch_detail::operator_rank(impl.params);
+            impl.rank       = operator_dispatch_detail::operator_rank(impl.params, impl.variadic);
             reg.register_overload(std::move(impl));
         }
         Wiring   w;
@@ -490,17 +496,25 @@ int main(int, char **)
                 c.label = l.pos.at(1);
                 if (l.pos.at(2) != "-")
                 {
-                    size_t k = 0;
-                    for (auto &ptxt : split(l.pos.at(2), ';'))
+                    size_t k     = 0;
+                    auto   texts = split(l.pos.at(2), ';');
+                    for (auto &ptxt : texts)
                     {
+                        if (!ptxt.empty() && ptxt[0] == '*')
+                        {
+                            if (k + 1 != texts.size()) { throw std::runtime_error("only the last parameter may be variadic"); }
+                            c.variadic = true;
+                            ptxt.erase(0, 1);
+                        }
                         Term t = parse_term(ptxt);
+                        if (c.variadic && is_scalar_term(t)) { throw std::runtime_error("a variadic tail is a time-series pattern"); }
                         c.params.push_back(build_param(t, k++));
                         c.prank += is_scalar_term(t) ? scalar_pattern_rank(c.params.back().scalar) : ts_pattern_rank(c.params.back().ts);
                     }
                 }
                 if (l.pos.at(3) != "->") { throw std::runtime_error("expected ->"); }
                 c.output = build_tp(parse_term(l.pos.at(4)));
-                c.base   = operator_dispatch_detail::operator_rank(c.params);
+                c.base   = operator_dispatch_detail::operator_rank(c.params, c.variadic);
                 scn->cands.push_back(std::move(c));
             }
             else if (cmd == "args")
